@@ -57,14 +57,14 @@ def eval_cmp(op, a, b):
 
 
 # parameter (arg index) -> list of (bound, rejected orderings among {'below','equal','above'}) -- frozen from docs/error values
-NOISE_TABLE = {
-    "epsilon": [(0.0, {"below", "equal"})],
-    "delta": [(0.0, {"below", "equal"})],
-    "dimensions": [(0.0, {"below", "equal"})],
-    "quantization_scale": [(0.0, {"below", "equal"})],
-    "ell_1_sensitivity": [(0.0, {"below", "equal"})],
-    "ell_2_sensitivity": [(0.0, {"below", "equal"})],
-    "ell_infty_sensitivity": [(0.0, {"below", "equal"})],
+NOISE_TABLE = {      # keyed by the parameter's position in NoiseParams::new
+    1: ("epsilon", [(0.0, {"below", "equal"})]),
+    2: ("delta", [(0.0, {"below", "equal"})]),
+    5: ("dimensions", [(0.0, {"below", "equal"})]),
+    6: ("quantization_scale", [(0.0, {"below", "equal"})]),
+    7: ("ell_1_sensitivity", [(0.0, {"below", "equal"})]),
+    8: ("ell_2_sensitivity", [(0.0, {"below", "equal"})]),
+    9: ("ell_infty_sensitivity", [(0.0, {"below", "equal"})]),
 }
 
 
@@ -99,7 +99,7 @@ def param_guards(b):
             l, r = r, l
         if l[0] != "arg" or r[0] != "const" or not isinstance(r[1], int):
             continue
-        pname = names.get(l[1], "_%d" % l[1])
+        pname = l[1]        # the parameter's position: its name is free to change
         is_float = b.local_ty(l[1]) in ("f64", "f32")
         bound = f64_of(r[1]) if is_float else r[1]
         # which edge reaches an Err return (without reaching Ok)?
@@ -136,8 +136,8 @@ def guard_params(ctx, facts):
         seen = {}
         for bb, pname, op, bound, err_nz in gs:
             seen.setdefault(pname, []).append((bb, op, bound, rejected(op, err_nz)))
-        for pname, want in NOISE_TABLE.items():
-            got = seen.get(pname)
+        for pidx, (pname, want) in NOISE_TABLE.items():
+            got = seen.get(pidx)
             if not got:
                 ctx.ob("GUARD-params", f"NoiseParams::new:{pname}", False, f"no guard on `{pname}` (documented: must be > 0)", site_of(b))
                 continue
@@ -160,10 +160,10 @@ def guard_params(ctx, facts):
         ctx.count(bodies=1)
         gs = param_guards(b)
         seen = {p: (bb, op, bound, rejected(op, nz)) for bb, p, op, bound, nz in gs}
-        g = seen.get("new_epsilon")
+        g = seen.get(1)
         ok = g is not None and g[2] > 0.0 and g[2] < 1e-300 and g[3] == {"below"}
         ctx.ob("GUARD-params", "OPRFPaddingDp::new:epsilon", ok, f"epsilon < MIN_POSITIVE rejected" if ok else f"epsilon guard is {g}", site_of(b, g[0]) if g else site_of(b))
-        g = seen.get("new_sensitivity")
+        g = seen.get(3)
         ok = g is not None and g[2] == 1_000_000 and g[3] == {"above"}
         ctx.ob("GUARD-params", "OPRFPaddingDp::new:sensitivity", ok, "sensitivity > 1_000_000 rejected" if ok else f"sensitivity guard is {g}", site_of(b, g[0]) if g else site_of(b))
         rc = flow.find_calls(b, re.compile(r"RangeInclusive::<Idx>::contains$"))
